@@ -134,6 +134,12 @@ def history_script(cid, rng, lp):
         plan.append(("DUMP",))
         fixed_calls()
         calls(2)
+    # QSexact_verify with the floating point prestep on the final problem, then the exact optimum of that problem
+    for cs, rs in fixed + [random_basis(rng, lp, valid=True)]:
+        lines.append("VERIFY 1 %s %s" % (cs, rs))
+        plan.append(("CALL", "VERIFY", cs, rs))
+    lines += ["SOLVE EXACT P", "ACCESS"]
+    plan.append(("FINAL",))
     return "\n".join(lines) + "\n", plan
 
 
@@ -264,6 +270,15 @@ def main():
                     ck.violation("singular_optimal_%s.txt" % qid, head + "BOPT %s %s\n" % (cs, rs),
                                  "QSexact_basis_optimalstatus answered 'optimal' for a singular basis (%s %s)" % (cs, rs),
                                  match=dict(kind="singular-optimal"))
+                # the same for the dual status (all three entry points): a singular basis has no basic solution, the answer is 'no'
+                # (the library used to repair the basis in LU pivot order and answer for the repaired one; that order is not modelled
+                # and, since the verdict functions refuse singular bases, no longer observable through them)
+                for nm, t in (("QSexact_basis_dualstatus (prepared stack)", d3), ("QSexact_basis_dualstatus", v0[0]), ("QSexact_verify (no prestep)", v0[1])):
+                    cv = verdict_c(t)
+                    bump("singular/C-bdual=%s" % (cv[1] if cv[0] == "res" else "err"))
+                    if cv[0] == "res" and cv[1] == 1:
+                        ck.violation("singular_dual_%s.txt" % qid, head + "%s %s %s\n" % (t[0], cs, rs),
+                                     "%s answered 'dual feasible' for a singular basis (%s %s)" % (nm, cs, rs), match=dict(kind="singular-dual-feasible"))
                 continue
             if not same(co, mo, False):
                 ck.violation("corr_bopt_%s.txt" % qid, head + "BOPT %s %s\n# model: %s  C: %s\n" % (cs, rs, mo, co),
@@ -459,7 +474,7 @@ def main():
     for cid, rc, err in hcr:
         ck.violation("crash_%s.txt" % cid, hscripts[cid] + "\n# rc=%s\n# %s" % (rc, err[-1500:]), "h_fac crashed (rc %s) on verdict calls with an edit history (case %s)" % (rc, cid),
                      match=dict(kind="crash"))
-    qs3, want3 = [], {}
+    qs3, want3, finals = [], {}, {}
     for cid, toks in houts.items():
         lp, plan = hplans[cid]
         if not any(t[0] == "LP" and t[1] == "OK" for t in toks):
@@ -492,6 +507,15 @@ def main():
                     t = next(it)
                     while t[0] != "SOLVE":
                         t = next(it)
+                elif step[0] == "FINAL":
+                    t = next(it)
+                    while t[0] != "SOLVE":
+                        t = next(it)
+                    st_fin = (int(t[2]), int(t[3]))
+                    t = next(it)
+                    while not (t[0] == "ACC" and t[1] == "objval"):
+                        t = next(it)
+                    finals[cid] = (st_fin, t[3] if t[2] == "0" else None)
                 else:
                     _, op, cs, rs = step
                     t = next(it)
@@ -501,19 +525,54 @@ def main():
                     k += 1
                     sense = "".join(senses) or "-"
                     qs3.append(basis_query(qid, "bopt" if op == "BOPT" else "bdual %d" % NEUTRAL_G, cur_ilp, sense, cs, rs))
-                    want3[qid] = (cid, op, cs, rs, t, nedits)
+                    want3[qid] = (cid, op, cs, rs, t, nedits, int(cur_ilp.split()[1]))
         except StopIteration:
             ck.violation("truncated_%s.txt" % cid, hscripts[cid], "harness output of history case %s is truncated" % cid, match=dict(kind="crash"))
     t1 = time.time()
     ans3 = model_queries(qs3, M3 or M)
     print("# phase 3 model %.1fs (%d queries)" % (time.time() - t1, len(qs3)), file=sys.stderr)
     nhist = 0
-    for qid, (cid, op, cs, rs, t, nedits) in want3.items():
-        with_d = op == "BDUAL"
+    for qid, (cid, op, cs, rs, t, nedits, ismax) in want3.items():
+        with_d = op != "BOPT"
         mv = verdict_m(ans3.get(qid), with_d)
         cv = verdict_c(t)
         if mv is None:
             ck.violation("model_%s.txt" % qid, hscripts[cid], "model driver gave no answer for %s" % qid, no_input=True)
+            continue
+        if op == "VERIFY":
+            # explored behaviour of the prestep path (not modelled): result 0 must mean 'not dual feasible' (the fall-back is the exact
+            # test); result 1 comes with a number that is either the exact dual objective of the basis (internal sign) or the verified
+            # optimal value of the LP reached by the double dual simplex from that basis
+            nhist += 1
+            fin = finals.get(cid)
+            tail = "# call VERIFY 1 %s %s: library %s, exact dual status of the basis %s, exact solve of the final problem %s\n" % (cs, rs, cv, mv, fin)
+            if cv[0] != "res":
+                bump("verify-prestep/rv!=0")
+                if mv[0] != "err":
+                    ck.violation("verify1_err_%s.txt" % qid, hscripts[cid] + tail, "QSexact_verify (useprestep=1) fails for a basis the loader accepts", match=dict(kind="verify-prestep-error"))
+                continue
+            if cv[1] == 0:
+                bump("verify-prestep/result=0,exact=%s" % (mv[1] if mv[0] == "res" else mv[0]))
+                if mv[0] == "res" and mv[1] == 1:
+                    ck.violation("verify1_miss_%s.txt" % qid, hscripts[cid] + tail, "QSexact_verify (useprestep=1) answers 'no' for a dual feasible basis (%s %s)" % (cs, rs), match=dict(kind="verify-prestep-misses"))
+                continue
+            d = fq(cv[2])
+            if mv[0] == "res" and mv[1] == 1 and d == fq(mv[2]):
+                bump("verify-prestep/result=1,value=exact-dual-objective-of-the-basis(internal-sign)")
+                continue
+            ov = fq(fin[1]) if fin and fin[0] == (0, 1) and fin[1] is not None else None
+            if ov is not None and d == ov:
+                bump("verify-prestep/result=1,value=LP-optimum(user-sign),basis-dual-feasible=%s" % (mv[1] if mv[0] == "res" else mv[0]))
+                if ismax and ov != 0:
+                    ck.violation("verify1_sign_%s.txt" % qid, hscripts[cid] + tail,
+                                 "QSexact_verify reports dobjval in the user's sign on the prestep path (%s) but in the internal (minimisation) sign on the fall-back path for the same MAX problem" % cv[2],
+                                 match=dict(kind="verify-prestep-sign"))
+                continue
+            if ov is not None and ismax and d == -ov:
+                bump("verify-prestep/result=1,value=LP-optimum(internal-sign)")
+                continue
+            ck.violation("verify1_value_%s.txt" % qid, hscripts[cid] + tail, "QSexact_verify (useprestep=1) reports result 1 with a value (%s) that is neither the dual objective of the basis nor the optimal value of the LP" % cv[2],
+                         match=dict(kind="verify-prestep-value"))
             continue
         nhist += 1
         ck.count(("hist", hscripts[cid], qid), nontrivial=(mv[0] == "res" and nedits > 0))
@@ -544,8 +603,9 @@ def main():
     ck.cov["exhaustive"] = False
     ck.cov["traces_validated_against_impl"] = nverd
     ck.cov["evaluations"] = nverd + len(rcases) + nhist
-    ck.cov["not_covered"] = ("singular bases: the library repairs them in LU pivot order (not modelled), only 'never optimal' is checked; QSexact_verify with prestep (floating point path) "
-                             "is not modelled; dual feasibility of returned bases is explored, not proved")
+    ck.cov["not_covered"] = ("singular bases: no verdict in the model, the library must answer 'no' through every entry point (the repair order of ILLbasis_factor is not modelled; it is no longer "
+                             "observable through the verdict functions); QSexact_verify with prestep (floating point path) is explored, not modelled: result 0 must mean 'not dual feasible', result 1 must come "
+                             "with the exact dual objective of the basis or the verified optimum of the LP; dual feasibility of returned bases is explored, not proved")
     ck.assumptions = ["Coq kernel; extraction (ExtrOcamlBasic) + OCaml compiler", "harness h_fac + text protocol", "GMP = exact rational arithmetic",
                       "the LU factorization is replaced by exact Gauss-Jordan in the model (C13 covers the LU code)"]
     ck.finish(trusted_base=["coqc 8.16.1 kernel", "OCaml extraction (ExtrOcamlBasic only)", "harness h_fac.c + checks/C12.py + checks/fac_common.py"])
